@@ -223,6 +223,11 @@ Proof. exact status_never_silent. Qed.
 Theorem C18_status_reason_truthful : forall s tg dead t b,
   ts_blocked (tx_status s tg dead t) = Some b -> blocker_true s tg dead t b.
 Proof. exact status_reason_truthful. Qed.
+Theorem C18_status_dead_is_unsatisfiable : forall s tg t, is_mined t = false ->
+  (t_unsat t <> None \/ exists d, In d (t_deps t) /\ Dead (m_txs s) (tg_scanned tg) d) ->
+  ts_blocked (tx_status s tg (dead_set s tg) t) = Some BUnsatisfiable
+  /\ ts_ready (tx_status s tg (dead_set s tg) t) = false.
+Proof. exact status_dead_is_unsatisfiable. Qed.
 Theorem C18_status_ready_action : forall s tg dead t,
   (ts_ready (tx_status s tg dead t) = true <-> ts_action (tx_status s tg dead t) <> None)
   /\ (ts_ready (tx_status s tg dead t) = true -> ts_blocked (tx_status s tg dead t) = None).
@@ -233,6 +238,19 @@ Proof. exact status_ready_broadcast_kernel. Qed.
 Theorem C18_status_ready_prove_is_kernel : forall s tg t, NoDup (map t_id (m_txs s)) -> In t (m_txs s) -> t_fail t = None ->
   (ts_action (tx_status s tg (dead_set s tg) t) = Some AProve <-> prove_ok s tg (dead_set s tg) [] t = true).
 Proof. exact status_ready_prove_kernel. Qed.
+
+(** The outlook ([Advance::next]): its per-row floor only ever names an unmined, unmarked row with
+    no dead dependency, under the kind of step that row itself is waiting for. *)
+Theorem C18_outlook_floor_live : forall s tg dead t k h, step_floor s tg dead t = Some (k, h) ->
+  is_mined t = false /\ t_unsat t = None /\ (forall d, In d (t_deps t) -> mem d dead = false)
+  /\ match k with
+     | KReevaluate => exists r, t_fail t = Some r /\ h = sat_add r 1
+     | KRebuild => t_fail t = None /\ expired_at t (tg_scanned tg) /\ is_transfer t = true /\ h = sat_add (t_expiry t) 1
+     | KProve => t_fail t = None /\ ~ expired_at t (tg_scanned tg) /\ (t_state t = Signed \/ t_state t = AwaitingSig)
+     | KBroadcast => t_fail t = None /\ ~ expired_at t (tg_scanned tg) /\ t_state t = Proved /\ h = t_sched t
+     | _ => False
+     end.
+Proof. exact step_floor_live. Qed.
 
 (** The anchor rejection sampler: the model's 64 draws are as good as any larger fuel for an RNG
     script of at most 63 ages, past which every word is odd (the hypothesis of
